@@ -82,7 +82,7 @@ def run(run: Run, pkg: Package) -> None:
         raise AnalysisError("gr.__init__ no longer defines self.maxbin")
     tr = S.Translator(noat, True)
     got = tr.tr(ex(maxbin))
-    ref = sp.Function("builtins.int")(sLmin / (2 * sdel))
+    ref = S.PyInt(sLmin / (2 * sdel))
     ok, how = S.decide_equal(got, ref)
     if ok is False and tr.atoms:
         ok = None
@@ -331,7 +331,8 @@ def analyse_method(run, pkg, K, m, attrs, ex):
         if ev.data["op"] is not None:
             run.ob("R-ALG", fq, f"{col}:norm", None, what, "augmented assignment form not in the idiom table", loc=loc_of(it, ev))
             continue
-        val = ex(ev.data["value"])
+        from ..vg import inline_calls
+        val = ex(inline_calls(pkg, ev.data["value"]))      # look through small normalisation helpers
         # the count read must be of the same column
         reads = {x[2][1] for x in walk(val) if x[0] == "sub" and x[1] in (df, ex(df)) and is_const(x[2])}
         if col != "r" and reads != {col}:
